@@ -144,6 +144,8 @@ def gen_shift_specs(rnd, res, aligned=True, crossmid=True, monsun_crossmid=False
     for _ in range(rnd.randint(1, 2)):
         d0 = rnd.randrange(7)
         d1 = rnd.randrange(d0, 7)
+        if d0 != d1 and rnd.random() < 0.15:
+            d0, d1 = d1, d0          # 'sat - mon': a range that wraps past Sunday (seeded change C02-c)
         ivs = []
         if crossmid and rnd.random() < 0.2:
             if monsun_crossmid:
@@ -185,6 +187,10 @@ def gen(rnd, *, core=False, res_choices=(60, 60, 30, 15), subslot=True, alap=Non
     m["res"] = res
     base = pick_start(rnd, special_start)
     m["start"] = base
+    if rnd.random() < 0.15:
+        # project start with a time of day (whole hours keep every resolution's slot grid aligned with the calendars);
+        # 'base' stays at midnight for leaves and the like (seeded change C05-c: daily periods counted from the project start)
+        m["start"] = base + timedelta(hours=rnd.choice([8, 10, 12, 13, 15, 20]))
     if days is not None:
         m["days"] = rnd.randint(*days) if isinstance(days, tuple) else days
     else:
@@ -308,7 +314,7 @@ def gen(rnd, *, core=False, res_choices=(60, 60, 30, 15), subslot=True, alap=Non
                         d["gap_min"] = rnd.choice([res, 2 * res, 24 * 60])
                     c["deps"] = [d]
             if pins and not m["alap"] and rnd.random() < 0.15:
-                c["start"] = base + timedelta(days=rnd.randrange(0, 7), minutes=rnd.randrange(0, 24 * 60, res))
+                c["start"] = m["start"] + timedelta(days=rnd.randrange(0, 7), minutes=rnd.randrange(0, 24 * 60, res))
             if tasklimits and rnd.random() < 0.3:
                 c["limits"] = {rnd.choice(["dailymax", "weeklymax"]): rnd.choice([1, 2, 3, 4])}
             if rnd.random() < 0.12:
@@ -353,7 +359,7 @@ def gen(rnd, *, core=False, res_choices=(60, 60, 30, 15), subslot=True, alap=Non
                 deps.append(d)
             t["deps"] = deps
         elif pins and not m["alap"] and rnd.random() < 0.2:
-            t["start"] = base + timedelta(days=rnd.randrange(0, 7), minutes=rnd.randrange(0, 24 * 60, res))
+            t["start"] = m["start"] + timedelta(days=rnd.randrange(0, 7), minutes=rnd.randrange(0, 24 * 60, res))
         tasks.append(t)
     m["tasks"] = tasks
     # containers that ended up childless become leaves (milestones): the parser treats them so
@@ -376,6 +382,8 @@ def gen(rnd, *, core=False, res_choices=(60, 60, 30, 15), subslot=True, alap=Non
         equalize_teams(m)
     assign_decl(m)
     m["acyclic"] = acyclic(m)
+    # declaration order is a spelling choice: 20 % of the models that use shifts declare them BELOW the resources
+    m["shifts_late"] = bool(shifts) and rnd.random() < 0.2
     return m
 
 
@@ -434,10 +442,17 @@ def relref(frm, to, rnd=None):
     return rnd.choice(opts)
 
 
+def days_of(d0, d1):
+    """weekday numbers of the range d0 - d1; d0 > d1 wraps past Sunday"""
+    return list(range(d0, d1 + 1)) if d0 <= d1 else list(range(d0, 7)) + list(range(0, d1 + 1))
+
+
 def spec_text(specs):
     out = []
     for d0, d1, ivs in specs:
         days = DAYS[d0] if d0 == d1 else "%s - %s" % (DAYS[d0], DAYS[d1])
+        if d0 != d1 and (d0 * 7 + d1 + len(ivs)) % 5 == 0:
+            days = ", ".join(DAYS[d] for d in days_of(d0, d1))      # the same days spelled as a list
         out.append("workinghours %s " % days + ", ".join("%s - %s" % (hm(s), hm(e)) for s, e in ivs))
     return out
 
@@ -478,11 +493,14 @@ def render(m, refrnd=None, precrnd=None, extra_header=None, scenarios=None, trai
         L.append('vacation "V" %s' % (fmt_dt(s) if e is None else "%s - %s" % (fmt_dt(s), fmt_dt(e))))
     for typ, s, e in m.get("gleaves", []):
         L.append('leaves %s "GL" %s' % (typ, d_full(s) if e is None else "%s - %s" % (d_full(s), d_full(e))))
-    for sid, specs in m["shifts"].items():
-        L.append('shift %s "%s" {' % (sid, sid))
-        for s in spec_text(specs):
-            L.append("  " + s)
-        L.append("}")
+    def emit_shifts():
+        for sid, specs in m["shifts"].items():
+            L.append('shift %s "%s" {' % (sid, sid))
+            for s in spec_text(specs):
+                L.append("  " + s)
+            L.append("}")
+    if not m.get("shifts_late"):
+        emit_shifts()
 
     def emit_res(r, ind):
         L.append('%sresource %s "%s" {' % (ind, r["id"], r["id"]))
@@ -527,6 +545,8 @@ def render(m, refrnd=None, precrnd=None, extra_header=None, scenarios=None, trai
     for r in m["resources"]:
         if not r.get("group"):
             emit_res(r, "")
+    if m.get("shifts_late"):
+        emit_shifts()
     tm = tmap(m)
 
     def emit(path, depth):
